@@ -37,11 +37,13 @@ What is proved here (about `Model/Sched.lean`, a literal port of `scheduler.rs`,
 * `C11_*_self_reschedule_chain`: a closure that re-schedules itself `p ≥ 1` samples ahead runs at `t0, t0+p, t0+2p, …` in every run length.
 
 * `C11_source_shape`: the comparison / ordering sites the model ports are the ones found in /repo's source right now;
-* finding F17 — the last sentence of the statement is FALSE of the code: on WASM the closure handle is the address of a
-  record that is freed when the scheduling body returns, so a pending task can run another function.
+* finding F17 (REPAIRED) — the last sentence of the statement was false of the code: on WASM the closure handle was the
+  address of a record that was freed when the scheduling body returned, so a pending task could run another function.
   `C11_wasm_closure_reuse_counterexample` proves the negation on a concrete program in the WASM model extended with that
-  memory (`Model/SchedMem.lean`); what remains true: `C11_wasm_queue_partial` (queue logic, handles assumed stable) and
-  `C11_wasm_mem_slot_consistent_partial` (memory included, programs whose `j`-th `@` of every body names one fixed function).
+  memory (`Model/SchedMem.lean`: the OLD discipline — these theorems now explain why it failed, they no longer describe the
+  implementation); `C11_wasm_queue_partial` (queue logic, handles assumed stable) is what the repaired back end is compared
+  with: `closure_retain` keeps the handle valid until the task ran. `C11_wasm_mem_slot_consistent_partial`: the programs the
+  old discipline could not hurt (memory included, the `j`-th `@` of every body names one fixed function).
 
 * the heap itself: `C11_heap_push_invariant`, `C11_heap_pop_invariant`, `C11_heap_multiset`, `C11_heap_pop_min`,
   `C11_heap_refines_priority_queue` (+ `C11_heap_pop_keys_eq_sorted_queue`, `C11_heap_eq_sorted_queue_of_total_order`,
@@ -187,10 +189,12 @@ theorem C11_source_shape : Mimium.Gen.schedShape = [
     ("vmRunDspOrder", "on_sample<dsp"),
     ("wasmRunDspOrder", "on_sample<dsp")] := rfl
 
-/-! ## Finding F17: on the WASM backend the property is false once closure records are taken into account
+/-! ## Finding F17 (repaired): the OLD memory discipline of the WASM backend makes the property false
 
-`C11_wasm_exactly_once_on_time` is about the queue with closure handles that stay valid. The real WASM handle is the
-address of a bump-allocated record that is freed when the scheduling body returns (`Model/SchedMem.lean`). -/
+`C11_wasm_exactly_once_on_time` is about the queue with closure handles that stay valid. Until the repair the real WASM
+handle was the address of a bump-allocated record that was freed when the scheduling body returned
+(`Model/SchedMem.lean`); the theorems of this section are about that discipline (why it failed, and for which programs it
+did not matter). The repaired back end keeps the record until the task ran and is compared with `W.runH stdHeap` only. -/
 
 /-- Non-vacuity of the premise and of the witness: `f17Env` satisfies `Future`. -/
 theorem C11_f17_witness_premise : f17Env.Future := by
@@ -211,7 +215,7 @@ theorem C11_f17_witness_premise : f17Env.Future := by
 /-- **Negation on a concrete witness** (WASM model with closure memory): the only call for sample 3 names function 0,
 but sample 3 runs function 1; function 1 runs twice (samples 3 and 4), function 0 never. The plain queue model and the
 VM model run function 0 at 3 and function 1 at 4. Replayed on the real runtimes by every check run
-(`corpus/C11/f17_witness.txt`). No two tasks are due in the same sample, so the tie oracle is irrelevant. -/
+(`corpus/C11/f17_witness.txt`; since the repair both runtimes must give the ideal run there). No two tasks are due in the same sample, so the tie oracle is irrelevant. -/
 theorem C11_wasm_closure_reuse_counterexample :
     (M.run (oracleHeap (fun _ => 0)) f17Env 6 ()).ticks.map (·.execd)
       = [[], [⟨1, 2⟩], [⟨2, 3⟩], [⟨3, 1⟩], [⟨4, 1⟩], []] ∧
@@ -224,7 +228,8 @@ theorem C11_wasm_closure_reuse_counterexample :
 /-- The part that does hold on the WASM side: the queue and hand-over logic of `WasmSchedulerHandle` executes every
 handle exactly once at exactly its sample, before dsp, for every program behaviour and tie order — i.e. C11 holds for
 WASM *provided the closure handle still denotes the closure that was scheduled* (true for closures created in global
-scope, false in general for closures created inside task bodies or dsp: F17). -/
+scope; for closures created inside task bodies or dsp it was false until the repair of F17 and is what `closure_retain` /
+`closure_release` of wasmgen.rs now provide). -/
 theorem C11_wasm_queue_partial {σ : Type} (env : Env σ) (ch : Nat → Nat) (n : Nat) (s0 : σ) (hf : env.Future) :
     (W.run env ch n s0).final.isSome ∧ (W.run env ch n s0).ticks.length = n ∧
     Ideal env 0 (env.global s0).2 (env.global s0).1 (W.run env ch n s0).ticks := by
